@@ -655,3 +655,137 @@ pub fn run_chunking(cfg: &ScenCfg, out: &mut RunOut) {
     kernel::settle();
     let _ = cfg.mode == Mode::LockStep;
 }
+
+/// Racy server mode: several sessions receive their streams concurrently (chunks of
+/// different sessions interleaved without settling, random task schedule, chunked reads,
+/// short writes, latency). Sessions address disjoint unit ids, so each session's reply
+/// stream and handler calls must equal the model run on that session's frames alone.
+pub fn run_racy(cfg: &ScenCfg, out: &mut RunOut) {
+    let lat = if chance(1, 2) { 500_000 } else { 0 };
+    kernel::with(|w| {
+        w.cfg.sched_random = true;
+        w.cfg.select_random = true;
+        w.cfg.chunk_reads = true;
+        w.cfg.short_writes = true;
+        w.cfg.max_latency_ns = lat;
+    });
+    let (dec_idx, decode) = pick_decode(&cfg.decode);
+    let nsess = 2 + choose(3) as usize;
+    // unit k belongs to session k
+    let mut units = BTreeMap::new();
+    for k in 0..nsess {
+        units.insert(10 + k as u8, gen_unit_mem(0xACE0 + k as u64 * 31 + choose(100) as u64));
+    }
+    let addr: SocketAddr = "10.0.0.1:502".parse().unwrap();
+    let mut rig = start_tcp_server(addr, &units, 8, AddressFilter::Any, decode);
+    kernel::settle();
+    struct S {
+        peer: PeerEnd,
+        stream: Vec<u8>,
+        cuts: Vec<usize>,
+        pos: usize,
+        expected: Vec<u8>,
+        calls: Vec<crate::model::server::Expected>,
+        unit: u8,
+    }
+    let mut sess: Vec<S> = Vec::new();
+    let mut wl = dec_idx as u64;
+    for k in 0..nsess {
+        let unit = 10 + k as u8;
+        let mut only = BTreeMap::new();
+        only.insert(unit, units[&unit].clone());
+        let n = 1 + choose(8) as usize;
+        // frames addressed to this session's unit (or to unconfigured ones)
+        let mut stream = Vec::new();
+        let mut ends = Vec::new();
+        let mut model = RefServer { framing: Framing::Mbap, units: only.clone(), auth: None };
+        let mut expected = Vec::new();
+        let mut calls = Vec::new();
+        for _ in 0..n {
+            let pdu = gen_request_pdu();
+            let dest = if chance(5, 6) { unit } else { 200 + choose(40) as u8 };
+            let tx = choose(65536) as u16;
+            hash_bytes(&mut wl, &pdu[..pdu.len().min(6)]);
+            stream.extend(mbap_frame(tx, dest, &pdu));
+            ends.push(stream.len());
+            let ex = model.serve(dest, &pdu);
+            if let Some(r) = &ex.reply {
+                expected.extend(mbap_frame(tx, dest, r));
+            }
+            calls.push(ex);
+        }
+        let cuts = cut_plan(stream.len(), &ends);
+        let peer = net::connect_from(addr, format!("10.0.4.{}:{}", k + 1, 7000 + k).parse().unwrap()).unwrap();
+        sess.push(S { peer, stream, cuts, pos: 0, expected, calls, unit });
+    }
+    // interleave deliveries and execution freely
+    let mut guard = 0;
+    loop {
+        guard += 1;
+        let live: Vec<usize> = (0..sess.len()).filter(|i| !sess[*i].cuts.is_empty()).collect();
+        if live.is_empty() || guard > 400 {
+            break;
+        }
+        match weighted(&[3, 2, 1]) {
+            0 => {
+                let i = live[choose(live.len() as u32) as usize];
+                let c = sess[i].cuts.remove(0);
+                let chunk = sess[i].stream[sess[i].pos..c].to_vec();
+                sess[i].pos = c;
+                if chance(1, 3) {
+                    sess[i].peer.write_delayed(&chunk, choose(2_000_000) as u64);
+                } else {
+                    sess[i].peer.write(&chunk);
+                }
+            }
+            1 => {
+                for _ in 0..1 + choose(6) {
+                    if !kernel::step() {
+                        break;
+                    }
+                }
+            }
+            _ => {
+                if chance(1, 2) {
+                    let mut fut = Box::pin(rig.handle.set_decode_level(decode_level(choose(36) as u8)));
+                    let _ = kernel::block_on(fut.as_mut());
+                } else {
+                    kernel::advance(choose(1_000_000) as u64);
+                }
+            }
+        }
+    }
+    // faults stop: deliver what is in flight
+    kernel::advance(50 * 1_000_000);
+    let journal = rig.journal.lock().unwrap().clone();
+    for (i, s) in sess.iter().enumerate() {
+        let got = s.peer.take_received();
+        if got != s.expected {
+            out.violate(
+                "C01",
+                "racy/session_reply_stream",
+                format!("session {} (unit {}): concurrent sessions changed its reply stream: got {} bytes, expected {} (first difference at {})", i, s.unit, got.len(), s.expected.len(), got.iter().zip(s.expected.iter()).position(|(a, b)| a != b).unwrap_or(got.len().min(s.expected.len()))),
+            );
+            out.violate("C15", "racy/session_isolation", format!("session {} reply stream disturbed by other sessions", i));
+            return;
+        }
+        // handler calls of this session's unit, in order
+        let mine: Vec<(u8, Call)> = journal.iter().filter(|(u, _)| *u == s.unit).cloned().collect();
+        if let Err(e) = check_journal(&mine, &s.calls, out) {
+            out.violate("C02", "racy/session_journal", format!("session {} (unit {}): {}", i, s.unit, e));
+            return;
+        }
+        if s.peer.remote_closed() {
+            out.violate("C15", "racy/session_closed", format!("session {} was closed", i));
+            return;
+        }
+        out.ops_checked += s.calls.len() as u64;
+    }
+    out.nontrivial = Some(wl ^ (nsess as u64) << 56);
+    out.sample = Some(json!({"scenario": "tcp server racy (concurrent sessions, disjoint units)", "sessions": nsess, "latency_ns": lat, "decode_level_index": dec_idx}));
+    {
+        let mut fut = Box::pin(rig.handle.shutdown());
+        let _ = kernel::block_on(fut.as_mut());
+    }
+    kernel::settle();
+}
